@@ -112,7 +112,9 @@ class _Struct:
         deep = depth >= 4
         x = r.random()
         misuse = ctx.get('misuse', False)
-        if x < 0.16:
+        if x < 0.05:
+            self.hostile_scene(ind, ctx, depth)
+        elif x < 0.16:
             t = r.choice(S_ANNS)
             if '(yield)' in t and not (ctx.get('func') and not ctx.get('asyncf')):
                 t = 'v{n}: int = 1'
@@ -154,6 +156,34 @@ class _Struct:
             self.compound(ind, ctx, depth)
         else:
             self.emit(ind, f'x{n} = {n}')
+
+    def hostile_scene(self, ind, ctx, depth):
+        """beforelist import + tracked assignment + a decorator stack mixing hostile and ordinary decorators"""
+        r = self.rng
+        n = self.uid()
+        imp, asg, hostile = r.choice([
+            ('from celery import Celery', f'app{n} = Celery("x")', [f'app{n}.task', f'app{n}.task(bind=True)']),
+            ('import celery', f'app{n} = celery.Celery()', [f'app{n}.task']),
+            ('from fastmcp import FastMCP as F', f'app{n}: F = F("n")', [f'app{n}.tool', f'app{n}.tool()']),
+            ('from langchain_core.runnables import chain', f'z{n} = 0', ['chain']),
+            ('import langchain_core.runnables', f'z{n} = 0', ['langchain_core.runnables.chain']),
+            ('import celery, os', f'app{n} = celery.Celery()', [f'app{n}.task']),
+            ('import os, celery', f'app{n} = celery.Celery()', [f'app{n}.task']),
+        ])
+        self.emit(ind, imp)
+        self.emit(ind, asg)
+        stack = [r.choice(hostile) for _ in range(r.choice([1, 1, 2]))] + [r.choice(['deco', 'deco(1)', 'mod.d'])
+                                                                            for _ in range(r.choice([0, 1, 1, 2]))]
+        if r.random() < 0.25:
+            r.shuffle(stack)
+        for d in stack:
+            self.emit(ind, '@' + d)
+        if r.random() < 0.75:
+            self.emit(ind, ('async ' if r.random() < 0.2 else '') + f'def h{n}(x: int) -> int:')
+            self.block(ind + 1, {'func': True, 'asyncf': False, 'misuse': False}, depth + 4, 1)
+        else:
+            self.emit(ind, f'class H{n}:')
+            self.block(ind + 1, {'cls': True}, depth + 4, 1)
 
     def compound(self, ind, ctx, depth):
         r = self.rng
@@ -258,8 +288,21 @@ def _render(items, ind=0):
     return out
 
 
-def enum_small(max_stmts: int, depth: int = 2):
-    """all sequences of <= max_stmts statements over leaves + one-child nests (nesting depth `depth`)"""
+_LEAVES14 = ['v: int = 1', 'o.a: int = 1', 'd[k]: int = 1', 'x = 1', '"doc"', 'from __future__ import annotations']
+_NEST14 = [('def f(a: int):', 'func'), ('async def h(a: int):', 'func'), ('class K:', 'cls'), ('if c:', None)]
+_INNER14 = ['v: int = 1', ('def m(a: int):', ['pass'])]
+
+
+def enum_small(max_stmts: int, depth: int = 2, small: bool = False):
+    """all sequences of <= max_stmts statements over leaves + one-child nests (nesting depth `depth`);
+    `small`: the 14-form alphabet (6 leaves + 4 nests x 2 inner statements) used for 3-statement modules"""
+    if small:
+        alphabet = list(_LEAVES14) + [(h, [i]) for h, _ in _NEST14 for i in _INNER14]
+        for k in range(1, max_stmts + 1):
+            for combo in itertools.product(alphabet, repeat=k):
+                yield '\n'.join(_render(combo)) + '\n'
+        return
+
     def forms(d):
         fs = list(_LEAVES)
         if d > 0:
@@ -306,7 +349,7 @@ def fac(n):
 def wrap(f):
     @functools.wraps(f)
     def w(*a, **k):
-        calls.append('w:' + f.__name__)
+        print('#M w', f.__name__)
         return f(*a, **k)
     return w
 class CM:
@@ -364,6 +407,8 @@ class _Run:
         self.pep526 = conf.get('claw_is_pep526', True)
         self.tower = conf.get('is_pep484_tower', False)
         self.viol = family in ('violating', 'unsupported')
+        if family == 'unsupported':
+            self.uncaught_used = True      # keep the import alive so that the unsupported definition is reached
         self.bad_placed = False
 
     def uid(self):
@@ -478,10 +523,12 @@ class _Run:
         r = self.rng
         n = self.uid()
         is_async = r.random() < 0.3
-        unsup = self.family == 'unsupported' and not self.bad_placed and ctx['scope'] == 'module' and r.random() < 0.5
+        unsup = self.family == 'unsupported' and not self.bad_placed and ctx['scope'] == 'module' and depth == 0 and r.random() < 0.5
         (params, ret, call, retexpr, typed), h, good, bad = self.sig(True if unsup else None)
         name = f'f{n}'
         decos = r.choice([[], [], [], ['rec'], ['fac(1)'], ['rec', 'fac(2)'], ['fac(3)', 'rec'], ['wrap']])
+        if is_async:      # a sync functools.wraps wrapper around a coroutine function carries annotations it violates
+            decos = [x for x in decos if x != 'wrap']
         if unsup:
             h = '3'
             self.bad_placed = True
@@ -496,10 +543,7 @@ class _Run:
         self.emit(ind + 1, f'return {retexpr}')
         mk = (lambda v: f'run({name}({call.format(v=v)}))') if is_async else (lambda v: f'{name}({call.format(v=v)})')
         if 'wrap' in decos:
-            self.emit(ind, 'try:')
-            self.emit(ind + 1, f"print('#M wrapcall', {mk(bad)})")
-            self.emit(ind, 'except Exception as e:')
-            self.emit(ind + 1, "print('#M wrapcall', type(e).__name__)")
+            self.emit(ind, f"print('r', {mk(good)})")
             return
         self.emit(ind, f"print('r', {mk(good if not unsup else bad)})")
         if self.viol and typed and not unsup and r.random() < 0.6:
@@ -509,7 +553,7 @@ class _Run:
         """a method in a class body; `uses` collects (call maker, typed, name)"""
         r = self.rng
         kind = r.choice(['m', 'm', 'm', 'am', 's', 'c'])
-        unsup = self.family == 'unsupported' and not self.bad_placed and uses is not None and r.random() < 0.5
+        unsup = self.family == 'unsupported' and not self.bad_placed and uses is not None and depth <= 1 and r.random() < 0.5
         (params, ret, call, retexpr, typed), h, good, bad = self.sig(True if unsup else None)
         if unsup:
             h = '3'
